@@ -22,7 +22,9 @@ func backupNonsegmentFiles(fsys fs.FileSystem) error {
 	for _, file := range files {
 		name := file.Name()
 		ext := filepath.Ext(name)
-		if ext == segmentExt || name == lockName {
+		if ext == segmentExt || name == lockName || ext == recoveryBackupExt || file.IsDir() {
+			// Files moved aside by a recovery that didn't finish stay where they are: renaming them
+			// again on every attempt makes the names grow until the file system refuses them.
 			continue
 		}
 		dst := name + recoveryBackupExt
